@@ -3,7 +3,7 @@
    [decode = notes_of_grid o parse_grid]; these theorems are about every grid, i.e. every
    number of players, measures, rows per measure and columns. *)
 From Coq Require Import List ZArith NArith Bool Sorting.Sorted.
-From SV Require Import Sx Str Notes Proofs.C07 Proofs.NotesText.
+From SV Require Import Sx Str Notes Proofs.C07 Proofs.NotesText Proofs.NotesTextGen.
 Import ListNotations.
 Open Scope Z_scope.
 
@@ -65,6 +65,15 @@ Theorem C07_canonical_text_decodes : forall g, grid_ok g ->
     decode (grid_text g) = if grid_ks_ok (length r0) g then Some (length r0, notes_of_grid g) else None.
 Proof. exact decode_grid_text. Qed.
 Print Assumptions C07_canonical_text_decodes.
+
+(* ... and for every well-formed text in the property's sense: each row may carry leading/trailing blanks, rows
+   of a measure are separated by one line break (LF, CRLF or any other single break character - so no blank line
+   inside a measure), measures by ',', players by '&', with arbitrary white space - blank lines included - around
+   measures and separators.  [gg_text g] is that text, [map (map gm_rows) g] the grid of its rows. *)
+Theorem C07_wellformed_text_parses : forall g, g <> [] -> Forall gp_ok g ->
+  parse_grid (gg_text g) = Some (map (map gm_rows) g).
+Proof. exact parse_grid_general. Qed.
+Print Assumptions C07_wellformed_text_parses.
 
 (* non-vacuity: a 2-player text with a 3-row measure, a keysound that shifts later columns, CRLF and blanks *)
 Example C07_example :
